@@ -84,21 +84,22 @@ theorem Reads.many {p : P α} {enc : α → Bytes} (xs : List α)
 /-! ### Stable -/
 
 /-- success on a truncated stream implies the same success on the full stream -/
-def Stable (p : P α) : Prop :=
-  ∀ (d : Bytes) (L pos : Nat) (a : α) (pos' : Nat),
+structure Stable (p : P α) : Prop where
+  out : ∀ (d : Bytes) (L pos : Nat) (a : α) (pos' : Nat),
     p (d.take L).toArray pos = .ok (a, pos') → p d.toArray pos = .ok (a, pos')
 
 theorem Stable.pure (a : α) : Stable (P.pure a) := by
-  intro d L pos a' pos' h; simpa [P.pure] using h
+  constructor; intro d L pos a' pos' h; simpa [P.pure] using h
 
 theorem Stable.fail (s : Status) : Stable (P.fail s : P α) := by
-  intro d L pos a' pos' h; simp [P.fail] at h
+  constructor; intro d L pos a' pos' h; simp [P.fail] at h
 
 theorem Stable.ub (w : String) : Stable (P.ub w : P α) := by
-  intro d L pos a' pos' h; simp [P.ub] at h
+  constructor; intro d L pos a' pos' h; simp [P.ub] at h
 
 theorem Stable.bind {p : P α} {f : α → P β} (hp : Stable p) (hf : ∀ a, Stable (f a)) :
     Stable (P.bind p f) := by
+  constructor
   intro d L pos b pos' h
   simp only [P.bind] at h ⊢
   cases hpe : p (d.take L).toArray pos with
@@ -106,10 +107,11 @@ theorem Stable.bind {p : P α} {f : α → P β} (hp : Stable p) (hf : ∀ a, St
   | ok r =>
     obtain ⟨a, p1⟩ := r
     simp only [hpe] at h
-    rw [hp d L pos a p1 hpe]
-    exact hf a d L p1 b pos' h
+    rw [hp.out d L pos a p1 hpe]
+    exact (hf a).out d L p1 b pos' h
 
 theorem Stable.readN (n : Nat) : Stable (Sbdf.readN n) := by
+  constructor
   intro d L pos a pos' h
   unfold Sbdf.readN at h ⊢
   by_cases h0 : n = 0
@@ -133,7 +135,7 @@ theorem Stable.readN (n : Nat) : Stable (Sbdf.readN n) := by
       simp [hle] at h
 
 theorem Stable.seek (dl : Int) : Stable (Sbdf.seek dl) := by
-  intro d L pos a pos' h; simpa [Sbdf.seek] using h
+  constructor; intro d L pos a pos' h; simpa [Sbdf.seek] using h
 
 theorem Stable.alloc (c : Cfg) (n : Int) : Stable (Sbdf.alloc c n) := by
   unfold Sbdf.alloc; split
